@@ -1,6 +1,36 @@
-(* C16 — position-range restriction counts exactly the occurrences inside the range (theorems are added as they close) *)
-From SA Require Import Base.Prelude Index.Index Query.Range Query.Range_Spec.
+(* C16 — position-range restriction counts exactly the occurrences inside the range.  Statement-only file.
+   Model: Query/Range.v (alignment validation, bounds shifted into the bucket field, payload filter, typed empty
+   results, then the term / phrase paths).  Spec: Query/Range_Spec.v. *)
+From SA Require Import Base.Prelude Index.Index Index.Index_Spec Query.Phrase_Spec Query.Range Query.Range_Spec Query.Range_Proofs.
 Open Scope N_scope.
+
+Theorem C16_term_frequency_in_range : forall docs bs t lo hi,
+  wf_docs docs -> aligned lo hi = true -> (lo, hi) <> (None, None) ->
+  exists ix, index false bs docs = AOk ix /\ termfreqs_range ix t lo hi = AOk (tf_range_spec docs t lo hi).
+Proof. exact C16_term_range. Qed.
+Print Assumptions C16_term_frequency_in_range.
+
+(* phrases of >= 2 terms without an immediately repeated term: occurrences lying ENTIRELY inside the range *)
+Theorem C16_phrase_frequency_in_range : forall docs bs ph lo hi,
+  wf_docs docs -> aligned lo hi = true -> (lo, hi) <> (None, None) ->
+  (2 <= length ph)%nat -> no_adjacent_repeat ph = true ->
+  exists ix, index false bs docs = AOk ix /\ phrase_freqs_range ix ph lo hi = AOk (phrase_range_spec docs ph lo hi).
+Proof. exact C16_phrase_range. Qed.
+Print Assumptions C16_phrase_frequency_in_range.
+
+(* a range that excludes every occurrence yields zeros, not an error *)
+Theorem C16_empty_range_gives_zeros : forall docs bs t lo hi,
+  wf_docs docs -> aligned lo hi = true -> (lo, hi) <> (None, None) ->
+  (forall d p, In d docs -> In p (offsets_from 0 t d) -> in_range lo hi p = false) ->
+  exists ix, index false bs docs = AOk ix /\ termfreqs_range ix t lo hi = AOk (repeat 0 (length docs)).
+Proof. exact C16_empty_range_is_zeros. Qed.
+
+(* bounds not aligned to 18 are rejected (for a term of the corpus; an unknown term returns zeros before validation) *)
+Theorem C16_unaligned_bounds_rejected : forall docs bs ix t lo hi,
+  wf_docs docs -> index false bs docs = AOk ix -> In t (concat docs) -> aligned lo hi = false ->
+  termfreqs_range ix t lo hi = AExc ValueError.
+Proof. exact C16_unaligned_rejected. Qed.
+
 Example C16_second_word_only :
   let d := [0;1;1;1;1;1;1;1;1;1;1;1;1;1;1;1;1;1; 0;0;1;1;1;1;1;1;1;1;1;1;1;1;1;1;1;1; 0;1] in
   match index false 10 [d; [0]] with
